@@ -624,9 +624,42 @@ pub fn run(run: &mut Run) {
         }
         (plans_run, calls > 1, viols)
     });
-    let mut total_plans = 0u64;
-    let mut nontrivial = 0u64;
+    // long vectors under `map` (and inside then / and): an element index or counter narrower than usize
+    // would wrap at 2^8 or 2^16; failures at the positions around those marks and at the ends
+    let long_lens: Vec<usize> = if run.quick() { vec![255, 256, 257, 1009, 65535, 65536, 65537, 70001] } else { vec![127, 128, 129, 255, 256, 257, 1009, 4099, 65535, 65536, 65537, 70001, 131101] };
+    let mut long_jobs: Vec<(T, Vec<usize>)> = vec![];
+    for &n in &long_lens {
+        let shapes = vec![
+            T::MapVec(Box::new(T::Probe), n),
+            T::Then(Box::new(T::Probe), Box::new(T::MapVec(Box::new(T::Probe), n))),
+            T::And(Box::new(T::MapVec(Box::new(T::Probe), n)), Box::new(T::Probe)),
+        ];
+        for (si, t) in shapes.into_iter().enumerate() {
+            let offset = if si == 1 { 1 } else { 0 }; // calls made before the map starts
+            let mut plans: Vec<Vec<usize>> = vec![vec![]];
+            for pos in [1usize, 2, 255, 256, 257, 258, 65535, 65536, 65537, 65538, n - 1, n] {
+                if pos >= 1 && pos <= n {
+                    plans.push(vec![pos + offset]);
+                }
+            }
+            plans.sort();
+            plans.dedup();
+            for p in plans {
+                long_jobs.push((t.clone(), p));
+            }
+        }
+    }
+    let long_results = mcx::par_map(long_jobs.len(), |i| check_tree(&long_jobs[i].0, &long_jobs[i].1).0.map(|(k, w)| (k, w.chars().take(600).collect::<String>())));
     let mut viols: Vec<(String, String, Value)> = vec![];
+    for (i, r) in long_results.into_iter().enumerate() {
+        if let Some((k, w)) = r {
+            viols.push((format!("{k}/long"), w, json!({"check":"C14","scenario":"tree","tree":format!("{:?}", long_jobs[i].0),"fail_at":long_jobs[i].1})));
+        }
+    }
+    run.bound("long_map_lengths", json!(long_lens));
+    let long_n = long_jobs.len() as u64;
+    let mut total_plans = long_n;
+    let mut nontrivial = 0u64;
     for (p, nt, v) in per_tree {
         total_plans += p;
         if nt {
@@ -647,7 +680,7 @@ pub fn run(run: &mut Run) {
     run.transitions = run.evaluations;
     run.traces_validated = run.evaluations;
     run.distinct_nontrivial = nontrivial;
-    run.rule = "all composition trees up to the depth bound over {probe, Identity, then, and, map over [T;2] / (T,T) / Vec (0,1,3 elements), then_map, apply_n_times 0..3 / apply_twice}, built from the real combinators and boxed through the erased layer; failure plans: none, every single probe call, every pair of calls; value, error path, probe log (order, inputs, words) and tape position compared with CompRef; non-trivial = trees with more than one probe call".into();
+    run.rule = "all composition trees up to the depth bound over {probe, Identity, then, and, map over [T;2] / (T,T) / Vec (0,1,3 elements), then_map, apply_n_times 0..3 / apply_twice}, built from the real combinators and boxed through the erased layer; failure plans: none, every single probe call, every pair of calls; value, error path, probe log (order, inputs, words) and tape position compared with CompRef; plus map over vectors of 255..70001 (131101) elements with failures around positions 2^8, 2^16 and at the ends; non-trivial = trees with more than one probe call".into();
     run.bound("max_depth", json!(depth));
     run.bound("trees", json!(ts.len()));
     run.bound("failure_deviation_bound", json!(2));
